@@ -2,6 +2,7 @@
   C20  Requests identify exactly this app, release and the selected channel.
 -/
 import UpdaterModel.Props.C17
+import UpdaterModel.Gen.Consts
 
 namespace Updater
 
@@ -232,5 +233,10 @@ theorem C20_holds (env : Env) (libs : List (String × Bytes)) (app : String) (op
         | _ => rfl
       · simp [h1, h2, h3, h4]
       · rfl
+
+/-! ### the defaults are the ones in the sources (table regenerated from /repo on every run) -/
+
+theorem default_channel_agrees : Gen.defaultChannel = DEFAULT_CHANNEL := rfl
+theorem default_base_url_agrees : Gen.defaultBaseUrl = DEFAULT_BASE_URL := rfl
 
 end Updater
